@@ -10,19 +10,20 @@ pub fn run(thorough: bool) -> Vec<Part> {
     }
     let mut part = Part::new("C06", "write-path-r", "model_checking");
     part.assume("all interleavings of enqueue_response (menu: 100-Continue, 200 with small/medium body[, 8 KiB]) and try_write, the stream answering each write with every accepted length 1..offered, 0, EINTR, EAGAIN or EPIPE; at most N enqueues per path (N reported); continuation after discards included; reference = deque of the serialized responses");
+    part.assume("one configuration interleaves try_read calls (would-block, end of input, an Expect request whose 100 Continue the connection queues itself, its body, a plain request, a malformed line; delivered requests popped at once): reads never lose, duplicate or reorder output");
     part.assume("EAGAIN from the stream counts as a non-interrupt error (the statement: 'zero bytes written or a non-interrupt error' discards everything)");
     let cfgs: Vec<WCfg> = if thorough {
         vec![
-            WCfg { label: "3 enqueues, bodies 5/300, every length".into(), bodies: vec![5, 300], max_enqueues: 3, all_lengths: true, bodyless_variants: false },
-            WCfg { label: "6 enqueues, bodies 0/5, every length".into(), bodies: vec![0, 5], max_enqueues: 6, all_lengths: false, bodyless_variants: false },
-            WCfg { label: "2 enqueues, bodies 5/8192, every length".into(), bodies: vec![5, 8192], max_enqueues: 2, all_lengths: true, bodyless_variants: false },
-            WCfg { label: "3 enqueues, bodies 5/300/8192, boundary lengths".into(), bodies: vec![5, 300, 8192], max_enqueues: 3, all_lengths: false, bodyless_variants: false },
+            WCfg { label: "3 enqueues, bodies 5/300, every length".into(), bodies: vec![5, 300], max_enqueues: 3, all_lengths: true, bodyless_variants: false, max_reads: 0 },
+            WCfg { label: "6 enqueues, bodies 0/5, every length".into(), bodies: vec![0, 5], max_enqueues: 6, all_lengths: false, bodyless_variants: false, max_reads: 0 },
+            WCfg { label: "2 enqueues, bodies 5/8192, every length".into(), bodies: vec![5, 8192], max_enqueues: 2, all_lengths: true, bodyless_variants: false, max_reads: 0 },
+            WCfg { label: "3 enqueues, bodies 5/300/8192, boundary lengths".into(), bodies: vec![5, 300, 8192], max_enqueues: 3, all_lengths: false, bodyless_variants: false, max_reads: 0 },
         ]
     } else {
         vec![
-            WCfg { label: "3 enqueues, bodies 5/40, every length".into(), bodies: vec![5, 40], max_enqueues: 3, all_lengths: true, bodyless_variants: false },
-            WCfg { label: "4 enqueues, bodies 5/300, boundary lengths".into(), bodies: vec![5, 300], max_enqueues: 4, all_lengths: false, bodyless_variants: false },
-            WCfg { label: "3 enqueues, bodies 5/5000/9000 (coarse lengths) + body-less variants".into(), bodies: vec![5, 5000, 9000], max_enqueues: 3, all_lengths: false, bodyless_variants: true },
+            WCfg { label: "3 enqueues, bodies 5/40, every length".into(), bodies: vec![5, 40], max_enqueues: 3, all_lengths: true, bodyless_variants: false, max_reads: 0 },
+            WCfg { label: "4 enqueues, bodies 5/300, boundary lengths".into(), bodies: vec![5, 300], max_enqueues: 4, all_lengths: false, bodyless_variants: false, max_reads: 0 },
+            WCfg { label: "3 enqueues, bodies 5/5000/9000 (coarse lengths) + body-less variants".into(), bodies: vec![5, 5000, 9000], max_enqueues: 3, all_lengths: false, bodyless_variants: true, max_reads: 0 },
         ]
     };
     for cfg in cfgs {
@@ -34,11 +35,27 @@ pub fn run(thorough: bool) -> Vec<Part> {
             part.violations.push(v.clone());
         }
     }
+    // try_read calls between the enqueues and writes: the connection's own 100 Continue joins the
+    // queue in enqueue order; end of input, would-block and parse errors leave pending output alone
+    {
+        let cfg = if thorough {
+            WCfg { label: "reads interleaved: 3 enqueues, bodies 5/40, 4 reads, every length".into(), bodies: vec![5, 40], max_enqueues: 3, all_lengths: true, bodyless_variants: false, max_reads: 4 }
+        } else {
+            WCfg { label: "reads interleaved: 2 enqueues, bodies 5/40, 3 reads, boundary lengths".into(), bodies: vec![5, 40], max_enqueues: 2, all_lengths: false, bodyless_variants: false, max_reads: 3 }
+        };
+        let limits = Limits { max_states: 10_000_000, max_secs: if thorough { 1500.0 } else { 100.0 }, ..Default::default() };
+        let st = bfs(&cfg, &limits, workers());
+        record(&mut part, &cfg.label, &st);
+        crate::explore::require_facts(&mut part, &cfg.label, &st, &["short_write", "read_with_partially_written_head", "own_100_continue_queued_behind_pending_output", "end_of_input_with_pending_output"]);
+        for (v, _) in &st.violations {
+            part.violations.push(v.clone());
+        }
+    }
     // Independent cross-check without any state de-duplication (protects against state that
     // the digest does not see): every action sequence up to depth N over the boundary menu.
     {
         use crate::explore::System;
-        let cfg = WCfg { label: "stateless: every sequence, no de-duplication".into(), bodies: vec![5, 40], max_enqueues: 3, all_lengths: false, bodyless_variants: true };
+        let cfg = WCfg { label: "stateless: every sequence, no de-duplication".into(), bodies: vec![5, 40], max_enqueues: 3, all_lengths: false, bodyless_variants: true, max_reads: 0 };
         let depth = if thorough { 7 } else { 6 };
         let root = cfg.run(&[]);
         let mut prefixes: Vec<Vec<crate::connw::WAct>> = vec![];
@@ -98,7 +115,7 @@ pub fn run(thorough: bool) -> Vec<Part> {
     {
         use crate::connw::WAct;
         use crate::explore::System;
-        let cfg = WCfg { label: "EINTR storms".into(), bodies: vec![5, 600], max_enqueues: 4, all_lengths: false, bodyless_variants: false };
+        let cfg = WCfg { label: "EINTR storms".into(), bodies: vec![5, 600], max_enqueues: 4, all_lengths: false, bodyless_variants: false, max_reads: 0 };
         let mut runs = 0u64;
         for k in [1usize, 2, 7, 8, 9, 10, 16, 40, 300] {
             // (a) k interrupts in a row, then everything is accepted
